@@ -348,9 +348,12 @@ func NonceRefForEntry(entry iface.IPFSLogEntry) []byte {
 		next += "-" + c.String()
 	}
 
+	// The key position is left empty: PreSign runs inside CreateEntryWithIO before the key is
+	// set, and again inside Entry.Verify when it is set, and both must derive the same nonce.
+	// (An empty string here is exactly what every stored entry was created with.)
 	return []byte(fmt.Sprintf("%s,%s,%s,%s,%d,%s,%d",
 		next,
-		entry.GetKey(),
+		"",
 		entry.GetPayload(),
 		entry.GetClock().GetID(),
 		entry.GetClock().GetTime(),
